@@ -163,6 +163,41 @@ Proof.
       first [exfalso; apply (Pp P1 v Hv P2) | exfalso; apply (Pp P2 u Hu P1) | apply Ione; auto].
 Qed.
 
+(* a step that changes only private things of the stepping fiber *)
+Lemma inv_local s g t m' k' r' :
+  InvG s g -> (t < nthr s)%nat ->
+  ndata m' = ndata (mem s) -> nnext m' = nnext (mem s) -> word m' = word (mem s) ->
+  qhead m' = qhead (mem s) -> qtail m' = qtail (mem s) -> fnode m' = fnode (mem s) ->
+  slot_sched m' = slot_sched (mem s) -> slot_mpmc m' = slot_mpmc (mem s) ->
+  slot_mutex m' = slot_mutex (mem s) -> slot_wait m' = slot_wait (mem s) ->
+  (forall u, u <> t -> fstate m' u = fstate (mem s) u /\ pend m' u = pend (mem s) u /\
+                       blocked m' u = blocked (mem s) u) ->
+  shape m' t r' k' ->
+  role_compat (grole g t) r' ->
+  (forall sd, c_ann sd r' k' = c_ann sd (grole g t) (stk s t)) ->
+  (forall sd, c_own sd r' k' = c_own sd (grole g t) (stk s t)) ->
+  ~ is_wlink (stk s t) -> ~ is_wlink k' -> ~ is_held k' ->
+  (is_asleep (stk s t) -> forall sd, grole g t <> RWait sd Popped) ->
+  pop_ok (mk s t m' k') (gset_role g t r') t ->
+  (is_popper k' -> is_popper (stk s t)) ->
+  InvG (mk s t m' k') (gset_role g t r').
+Proof.
+  intros I Ht Ed En Ew Eh Et Ef Es1 Es2 Es3 Es4 Eo Sh Rc Ca Co Nw Nw' Nh Na Po Pp.
+  assert (EC : counts (mk s t m' k') (gset_role g t r') = counts s g).
+  { rewrite (counts_change s g _ _ t); auto.
+    - cbn [mk gset_role stk grole]. rewrite !upd_same, !Ca, !Co, !Z.sub_diag, !Z.add_0_r.
+      symmetry; apply rwf_eta.
+    - intros u Hu. cbn [mk gset_role stk grole]. rewrite !upd_other by auto. auto. }
+  apply inv_gen; auto; rewrite ?EC; try apply I.
+  - intros x. right. rewrite Ed, En. auto.
+  - intros u _. now rewrite Ef.
+  - rewrite Ef. apply I.
+  - intros. now rewrite Ef.
+  - rewrite Ew. apply I.
+  - unfold held_ok. cbn [mk stk]. rewrite upd_same. destruct k' as [|[] ?]; cbn in Nh; tauto.
+  - intros P u Hu PU. apply Hu. apply (i_one _ _ I); auto.
+Qed.
+
 Lemma step_eq s t m1 e1 s1 :
   kstep rwc cret (mem s) t (stk s t) = (m1, e1, s1) -> fst (step s t) = mk s t m1 s1.
 Proof. intros E. unfold step. rewrite E. reflexivity. Qed.
@@ -179,28 +214,53 @@ Ltac stp Hk :=
     repeat (match goal with H : ?c = _ |- context [if ?c then _ else _] => rewrite H end);
     rewrite ?start_eta; cbn [app]; reflexivity].
 
+Definition client_top (k : stack rwc) : Prop :=
+  match k with [] => True | WReadW _ :: _ => True | CRead _ :: _ => True | _ => False end.
+Lemma start_client t p : forall k h, client_top (snd (start t p k h)).
+Proof.
+  induction p as [|o p IH]; intros k h; cbn; auto.
+  destruct o, h; cbn; auto;
+    try (specialize (IH (S k)); match goal with |- context [start t p (S k) ?h] =>
+      specialize (IH h); destruct (start t p (S k) h); exact IH end).
+Qed.
+Lemma client_not_wlink k : client_top k -> ~ is_wlink k. Proof. destruct k as [|[] ?]; cbn; tauto. Qed.
+Lemma client_not_held k : client_top k -> ~ is_held k. Proof. destruct k as [|[] ?]; cbn; tauto. Qed.
+Lemma client_not_popper k : client_top k -> ~ is_popper k. Proof. destruct k as [|[] ?]; cbn; tauto. Qed.
+
 Ltac local_prems Hk Hr :=
   try reflexivity;
   try (intros ? ?; repeat split; reflexivity);
+  try (intros ? ?; repeat split; cbn; rewrite ?upd_other by auto; reflexivity);
   try (left; symmetry; exact Hr);
   try (intros []; rewrite <- ?Hk, <- ?Hr; cbn; rewrite ?start_tp; reflexivity);
-  try (rewrite <- ?Hk; cbn; tauto).
+  try (rewrite <- ?Hk; cbn; tauto);
+  try (apply client_not_wlink, start_client);
+  try (apply client_not_held, start_client);
+  try (apply pop_ok_nonpopper; cbn [mk stk]; rewrite upd_same; first [apply client_not_popper, start_client | cbn; tauto]);
+  try (intros P; exfalso; revert P; apply client_not_popper, start_client).
 
-Section Test.
+Ltac local g t r' Hk Hr :=
+  exists (gset_role g t r'); apply inv_local; auto; local_prems Hk Hr.
+
+Lemma run_ok_fstate m t : pend m t = O -> blocked m t = false -> fnode m t <> O -> run_ok (set_fstate m t ST_RUNNING) t.
+Proof. intros. unfold run_ok. cbn. rewrite upd_same. auto. Qed.
+Lemma run_ok_cell m t c v : run_ok m t -> run_ok (set_cell m c v) t.
+Proof. auto. Qed.
+
+Section Main.
 Variable s : st. Variable g : ghost. Variable t : nat.
+Hypothesis G : Z.of_nat (nthr s) < 2 ^ 21.
 Hypothesis I : InvG s g. Hypothesis R : status_of s t = SReady.
 
-Lemma test_lsnap sd p k : run_ok (mem s) t -> RIdle = grole g t -> [WReadW 0; FC (LSnap sd p k)] = stk s t -> Inv (fst (step s t)).
+Lemma step_inv_local_cases : Inv (fst (step s t)).
 Proof.
-  intros RO Hr Hk. pose proof (ready_lt _ _ R) as Ht.
-  destruct (busy sd (word (mem s) 0)) eqn:B.
-  - stp Hk. exists (gset_role g t RIdle).
-    apply inv_local; auto; local_prems Hk Hr.
-    + constructor; auto.
-    + unfold pop_ok. cbn. rewrite upd_same. exact Logic.I.
-  - stp Hk. exists (gset_role g t RIdle).
-    apply inv_local; auto; local_prems Hk Hr.
-    + constructor; auto.
-    + unfold pop_ok. cbn. rewrite upd_same. exact Logic.I.
-Qed.
-End Test.
+  pose proof (ready_lt _ _ R) as Ht.
+  pose proof (i_shape _ _ I t) as Sh.
+  remember (stk s t) as k0 eqn:Hk. remember (grole g t) as r0 eqn:Hr.
+  destruct Sh.
+  - (* done *) exfalso. unfold status_of in R. rewrite <- Hk in R. destruct (t <? nthr s)%nat; discriminate.
+  - (* start *) stp Hk. local g t RIdle Hk Hr.
+    apply (start_shape _ t p 1%nat HNone). apply run_ok_fstate; auto.
+  - (* lsnap *) destruct (busy sd (word (mem s) 0)) eqn:B; stp Hk; local g t RIdle Hk Hr; constructor; auto.
+Abort.
+End Main.
